@@ -78,8 +78,10 @@ struct Engine {
   template <class V>
   void destroy(Slot<V> &s) {
     if (!s.obj) return;
-    g_cur_sig = "destroy";
-    g_cur_desc = "destructor";
+    if (!keep_sig) {
+      g_cur_sig = "destroy";
+      g_cur_desc = "destructor";
+    }
     window([&] { s.obj->~V(); });
     MonScope m;
     memset(s.raw, 0xDD, sizeof(V));
@@ -422,6 +424,7 @@ struct Engine {
   static typename std::enable_if<std::is_same<A_, amc::vec::EmptyAlloc>::value, A_>::type alloc_arg() { return A_(); }
 
   E *hold = nullptr;
+  bool keep_sig = false;    // teardown after a violation keeps the signature of the call that caused it
   bool multi_grow = false;  // single-pass range: the vector may grow several times within the call
   bool skip_alloc_check = false;  // the call threw a (legitimate) exception: the exception object itself is malloc'ed
   void drop_hold() {
@@ -1278,7 +1281,24 @@ struct Engine {
       else if (r < 97) { int qi = rng.below(NQ); simple_mutate(Q[qi], NP + qi, "Q"); }
       else op_z();
     }
-    if (g_cut) { ++n_cut; return; }
+    if (g_cut) {
+      // A monitor fired: the history stops here. The pool is still destroyed, so that the allocator / element ledgers can witness the
+      // consequences (a block handed back with a wrong size, a double destruction); the process may die doing so, which the driver records.
+      ++n_cut;
+      { MonScope m0; g_cur_sig += "+teardown-after-violation"; }
+      keep_sig = true;
+      for (int i = 0; i < NP; ++i) destroy(P[i]);
+      for (int i = 0; i < NQ; ++i) destroy(Q[i]);
+      for (int i = 0; i < NZ; ++i) destroy(Z[i]);
+      keep_sig = false;
+      {
+        MonScope m;
+        if (EI<E>::kTracked && g_live_lib != 0) violation("C02", "ledger.alive_at_end", fmt("%ld element object(s) still alive after all containers were destroyed (after a violation)", g_live_lib));
+        if (g_blk_live != 0) violation("C06", "alloc.outstanding_at_end", fmt("%ld block(s) still outstanding after all containers were destroyed (after a violation)", g_blk_live));
+      }
+      g_cut = true;
+      return;
+    }
     // teardown: everything is destroyed, nothing may remain
     g_cur_op = nops + 1;
     for (int i = 0; i < NP; ++i) destroy(P[i]);
